@@ -82,6 +82,33 @@ impl SparqlValue {
         }
     }
 
+    /// Whether `datatype` is one of the numeric datatypes recognized by [`try_from_literal`](Self::try_from_literal)
+    pub fn is_numeric_datatype(datatype: &str) -> bool {
+        datatype
+            .strip_prefix(xsd::PREFIX.as_str())
+            .is_some_and(|local| {
+                matches!(
+                    local,
+                    "integer"
+                        | "decimal"
+                        | "float"
+                        | "double"
+                        | "nonPositiveInteger"
+                        | "negativeInteger"
+                        | "long"
+                        | "int"
+                        | "short"
+                        | "byte"
+                        | "nonNegativeInteger"
+                        | "unsignedLong"
+                        | "unsignedInt"
+                        | "unsignedShort"
+                        | "unsignedByte"
+                        | "positiveInteger"
+                )
+            })
+    }
+
     pub fn is_truthy(&self) -> Option<bool> {
         match self {
             SparqlValue::Number(n) => Some(n.is_truthy()),
